@@ -70,7 +70,7 @@ struct EvaluatedRule {
 struct EvaluatedDecisionTable {
   component_names: Vec<Name>,
   output_values: Vec<Value>,
-  default_output_values: Vec<Value>,
+  default_output_values: Vec<Option<Value>>,
   evaluated_rules: Vec<EvaluatedRule>,
 }
 
@@ -130,10 +130,21 @@ impl EvaluatedDecisionTable {
   }
   ///
   fn evaluate_default_output_value(&self) -> Value {
-    match self.default_output_values.len() {
-      0 => value_null!("no rules matched, no output value defined"),
-      1 => self.default_output_values[0].clone(),
-      _ => value_null!(),
+    if self.default_output_values.iter().all(|value| value.is_none()) {
+      return value_null!("no rules matched, no output value defined");
+    }
+    if self.default_output_values.len() > 1 {
+      // compound output: the default output values compose a context, like the output entries of a rule
+      if self.default_output_values.len() != self.component_names.len() {
+        return value_null!("err_number_of_output_values_differ_from_component_names");
+      }
+      let mut result: FeelContext = Default::default();
+      for (i, value) in self.default_output_values.iter().enumerate() {
+        result.set_entry(&self.component_names[i], value.clone().unwrap_or_else(|| value_null!()));
+      }
+      Value::Context(result)
+    } else {
+      self.default_output_values[0].clone().unwrap_or_else(|| value_null!())
     }
   }
   ///
@@ -369,12 +380,18 @@ fn evaluate_parsed_decision_table(scope: &Scope, parsed_decision_table: &ParsedD
       output_values.append(&mut values.as_vec().to_owned());
     }
   }
-  // evaluate only non-empty default output values
+  // evaluate default output values, one for each output clause (when defined and single)
   let mut default_output_values = vec![];
-  for evaluator in parsed_decision_table.default_output_values_evaluators.iter().flatten() {
-    if let Value::ExpressionList(values) = evaluator(scope) {
-      default_output_values.append(&mut values.as_vec().to_owned());
+  for opt_evaluator in &parsed_decision_table.default_output_values_evaluators {
+    let mut default_output_value = None;
+    if let Some(evaluator) = opt_evaluator {
+      if let Value::ExpressionList(values) = evaluator(scope) {
+        if values.as_vec().len() == 1 {
+          default_output_value = Some(values.as_vec()[0].clone());
+        }
+      }
     }
+    default_output_values.push(default_output_value);
   }
   // evaluate all rules
   let mut evaluated_rules = vec![];
